@@ -436,7 +436,9 @@ pub fn run_history(rng: &mut Rng, cfg: &HistCfg, dir: &Path, tag: &str) -> HistR
                 }
                 if sim.bounded_depth {
                     // flow control: (a) catch up on overdue commits before moving on, (b) do not
-                    // open a fork more than retention-1 epochs below the most advanced member
+                    // open a fork more than `retention` epochs below the most advanced member (a fork of
+                    // depth == retention is the boundary the library still has to resolve: the oldest
+                    // retained snapshot and the oldest exporter secret tried are exactly that far back)
                     if let Some(od) = w.overdue_commit(m, g, sim.retention, sim.causal, sim.proposals_first) {
                         let d = w.deliver(m, od, OwnMode::Echo);
                         schedule.push(Step::Deliver { m, idx: od });
@@ -446,7 +448,7 @@ pub fn run_history(rng: &mut Rng, cfg: &HistCfg, dir: &Path, tag: &str) -> HistR
                     }
                     let gid = w.gid(g);
                     let cur = w.clients[m].state(g, &gid).map(|s| s.1).unwrap_or(0);
-                    if cur + (sim.retention as u64) <= w.max_epoch(g) {
+                    if cur + (sim.retention as u64) < w.max_epoch(g) {
                         continue;
                     }
                 }
